@@ -20,6 +20,8 @@ def tasks(tier, seed):
         ts += [dict(t, what="unary") for t in gen.dfa_src_tasks(3, "ab", 6, stride=3, pools=(0, 5))]
         ts += [dict(t, what="binary") for t in gen.dfa_src_tasks(2, "ab", 4)]
         ts += [{"kind": "rnd_dfa", "count": 400, "seed": seed * 50 + i, "what": "both"} for i in range(3)]
+        ts += [{"kind": "rnd_dfa", "count": 40, "seed": seed * 50 + 40 + i, "what": "both", "maxk": 3,
+                "alphabets": ["abcde", "abcdef", "abcdefg", "abcdefghijklmnopq"]} for i in range(2)]
         ts += [{"kind": "numbered_dfa", "count": 25, "seed": seed * 50 + i, "what": "unary"} for i in range(2)]
         ts += [{"kind": "cyclic_dfa", "count": 250, "seed": seed * 50 + i, "what": "unary"} for i in range(6)]
         ts += [{"kind": "comma_pairs", "count": 150, "seed": seed * 50 + i} for i in range(2)]
